@@ -18,8 +18,12 @@ type corpusDoc struct {
 }
 
 func genCorpus(c *Check, maxLen int, label string) []corpusDoc {
-	params := paramsModule(nil, "LimV == "+defaultLim.TLA()+"\nPrefixV == <<EvBD, EvVer(0)>>\nReasonsV == {}")
-	cfgText := fmt.Sprintf("INIT Init\nNEXT Next\nINVARIANT Emit\nINVARIANT Inv\nCHECK_DEADLOCK FALSE\nCONSTANTS\n Alphabet <- AlphaDoc\n MaxLen = %d\n Lim <- LimV\n Reasons <- ReasonsV\n Prefix <- PrefixV\n Filter <- FilterDoc\n OnlyComplete = TRUE\n", maxLen)
+	return genCorpusFrom(c, "AlphaDoc", "FilterDoc", "<<EvBD, EvVer(0)>>", maxLen, label)
+}
+
+func genCorpusFrom(c *Check, alphabet, filter, prefix string, maxLen int, label string) []corpusDoc {
+	params := paramsModule(nil, "LimV == "+defaultLim.TLA()+"\nPrefixV == "+prefix+"\nReasonsV == {}")
+	cfgText := fmt.Sprintf("INIT Init\nNEXT Next\nINVARIANT Emit\nINVARIANT Inv\nCHECK_DEADLOCK FALSE\nCONSTANTS\n Alphabet <- %s\n MaxLen = %d\n Lim <- LimV\n Reasons <- ReasonsV\n Prefix <- PrefixV\n Filter <- %s\n OnlyComplete = TRUE\n", alphabet, maxLen, filter)
 	var table *genTable
 	var docs []corpusDoc
 	res, err := RunTLC(TLCRun{Module: "RulesGen", Cfg: cfgText, Extra: map[string]string{"VerifParams.tla": params}, Workers: 8, Timeout: 30 * time.Minute,
